@@ -260,6 +260,9 @@ def r6_index_forwarding(ctx):
     r3_self_array_writes(ctx)
 
 
+from ..through_time import make_rule as _mk_tt
+_through_time = _mk_tt("C05")
+
 RULES = [
     ("C05-R1", r1_aligned_views),
     ("C05-R2", r2_invalidation),
@@ -267,4 +270,5 @@ RULES = [
     ("C05-R4", r4_shared),
     ("C05-R5", r5_context_pairing),
     ("C05-R6", r6_index_forwarding),
+    ("C05-T1", _through_time),
 ]
